@@ -2562,18 +2562,20 @@ INVARIANT Converged
 PROPERTY OtherDatabaseUntouched
 ''' % maxlen)
     res = require_ok(run_tlc('Route', cfg, workers=8, timeout=3000), 'Route.tla')
-    report.add_tlc('Route MaxLen=%d (all 8 routings x 2 orders)' % maxlen, res.stats())
+    report.add_tlc('Route MaxLen=%d (all 27 routings x 2 orders)' % maxlen, res.stats())
     recs = res.records
     rng = random.Random(seed() * 733 + 16)
     # stratify by (number of models on `other`, mutation kinds)
     strata = {}
     for r in recs:
         n_other = sum(1 for d in r['route'].values() if d == 'other')
+        n_both = sum(1 for d in r['route'].values() if d == 'both')
         kinds = tuple(sorted(set(mu['k'] for mu in r['evo'])))
-        strata.setdefault((n_other, kinds, len(r['evo'])), []).append(r)
+        on_both = any(r['route'][mu['m'][0]] == 'both' for mu in r['evo'])
+        strata.setdefault((n_other, n_both, on_both, kinds, len(r['evo'])), []).append(r)
     for k in strata:
         rng.shuffle(strata[k])
-    limit = 70 if tier == 'quick' else 900
+    limit = 90 if tier == 'quick' else 1200
     chosen = []
     while len(chosen) < limit and any(strata.values()):
         for k in sorted(strata):
@@ -2589,8 +2591,9 @@ PROPERTY OtherDatabaseUntouched
         if obs['errors']:
             report.notes.append('setup failed: %r' % (obs['errors'][:1],))
             continue
-        split = len(set(rec['route'].values())) == 2
-        both = len(set(rec['route'][m['m'][0]] for m in rec['evo'])) == 2
+        split = len(set(rec['route'].values())) >= 2
+        both = len(set(rec['route'][m['m'][0]] for m in rec['evo'])) >= 2 or \
+            any(rec['route'][m['m'][0]] == 'both' for m in rec['evo'])
         if split and both:
             nontrivial.add(json_key(rec['evo'], json_key(rec['route'], rec['order'])))
         for st in obs['steps']:
@@ -2619,7 +2622,7 @@ PROPERTY OtherDatabaseUntouched
     report.coverage['distinct_nontrivial'] = len(nontrivial)
     report.coverage['exhaustive'] = len(chosen) == len(recs)
     report.coverage['rule'] = (
-        'Route.tla: one app with three models, every assignment of models to two databases (8) x either order of '
+        'Route.tla: one app with three models, every assignment of each model to one of two databases or to both (27) x either order of '
         'evolving them x every valid evolution of <= %d mutations (AddField, ChangeField, RenameModel to a new table, '
         'DeleteModel, incl. mutations on the renamed model); TLC checks OnlyRoutedModels, OtherDatabaseUntouched, '
         'Converged. %d of %d scenarios were replayed on a real two-database project with a router, each database '
